@@ -223,11 +223,14 @@ pub fn enc_qevents(evs: &[Ev], head: u128) -> Vec<u128> {
 thread_local! {
     /// the next rigs are built on a transport that requires the legacy queue layout
     pub static RIG_LEGACY: std::cell::Cell<bool> = std::cell::Cell::new(false);
+    /// the platform hands out device address 0 for shared buffers whenever the bottom of the space is free
+    pub static RIG_ZERO_SHARE: std::cell::Cell<bool> = std::cell::Cell::new(false);
 }
 
 impl<const N: usize> Rig<N> {
     pub fn new(ctx: &mut Ctx, indirect: bool, event_idx: bool, ap: bool, start: u16) -> Option<Self> {
         hal::reset();
+        if RIG_ZERO_SHARE.with(|z| z.get()) { hal::share_from_zero(true); ctx.tr.note("hist_share_address_zero"); }
         BUFIDS.with(|b| b.borrow_mut().clear());
         virtio_drivers::verif::set_observer(Some(observer));
         let mut st = TState::new(DeviceType::Block, 0, 2, N as u32);
@@ -748,8 +751,10 @@ pub fn standard_histories(ctx: &mut Ctx, name: &str, nhist: u64) {
         ctx.tr.scenario(&format!("{}-h{}-n{}-f{}-s{}", name, h, size, flags, start));
         let nops = if size <= 16 { 60 + ctx.rng.below(120) as usize } else { 60 };
         RIG_LEGACY.with(|l| l.set(h % 4 == 3));
+        RIG_ZERO_SHARE.with(|z| z.set(h % 3 == 1));
         history_dyn(ctx, size, flags, start, nops, 64);
         RIG_LEGACY.with(|l| l.set(false));
+        RIG_ZERO_SHARE.with(|z| z.set(false));
     }
 }
 
